@@ -110,6 +110,28 @@ def check_case(case, fenced=True):
         if results[("variant", style)] != results[("canonical", style)]:
             return ("keyword-case-changes-result", "%s: %r -> %r but %r -> %r" % (
                 style, canon, results[("canonical", style)], variant, results[("variant", style)]))
+    # metamorphic companion: the row's own integer values written as literals must not change the row's fate
+    # (needs no reading of div and mod; directed at literal operands, e.g. a constant folder)
+    if not stats.get("excluded_by_known_finding"):
+        ran = skipped = 0
+        for i, t2 in semcheck.literalised(t, case["rows"], case.get("style_seed", 0), max_rows=1):
+            text2 = printer.render(t2, printer.Style())
+            for style in ("orm-select", "core"):
+                S.session.expunge_all()
+                try:
+                    ids_l = set(run_style(S, style, text2))
+                except Exception:
+                    S.session.rollback()
+                    skipped += 1        # the companion may leave the supported fragment: nothing is decided
+                    continue
+                ran += 1
+                ids0 = set(results[("canonical", style)])
+                if ((i + 1) in ids_l) != ((i + 1) in ids0):
+                    return ("literalised-row-differs", "%s row %d %r: %r %s it, but with its integer values as literals %r %s it" % (
+                        style, i + 1, case["rows"][i], canon, "selects" if (i + 1) in ids0 else "does not select", text2,
+                        "selects" if (i + 1) in ids_l else "does not select"))
+        stats["literalised_ran"] = ran
+        stats["literalised_skipped"] = skipped
     return None
 
 
@@ -165,6 +187,8 @@ def run_task(task, seed, acc):
         acc.cls("rows_selected", stats.get("selected", 0))
         acc.cls("rows_excluded_by_known_finding", stats.get("excluded_by_known_finding", 0))
         acc.cls("filters_beyond_an_engine_limit", stats.get("engine_limit", 0))
+        acc.cls("literalised_companions_run", stats.get("literalised_ran", 0))
+        acc.cls("literalised_companions_undecided", stats.get("literalised_skipped", 0))
         for c in c01.classes_of(t, case["rows"]):
             acc.cls(c)
         if r:
